@@ -150,21 +150,30 @@ def rule_exit(chk, qa):
         if isinstance(x, ast.For) and isinstance(x.target, ast.Name) and isinstance(x.iter, ast.Name):
             itemvars.add(x.target.id)
     # loop tests
-    for t in cfg.live:
-        if t.kind == "test" and isinstance(t.ast, ast.While) and t.ast in rd.node.body:
-            if not (isinstance(t.ast.test, ast.Constant) and t.ast.test.value):
-                problems.append("the reader loop runs `while %s`: it can stop before the queue is drained" % unparse(t.ast.test))
-    # every way out of the function
-    exits = [n for n in cfg.live if n.kind in ("return", "break")] + [p for p, l in cfg.exit.pred if l == "fallthrough" or l == "false"]
-    chk.need(exits, "_reader has no exit at all")
-
     def is_sentinel_test(e):
+        if isinstance(e, ast.UnaryOp) and isinstance(e.op, ast.Not):
+            k_ = is_sentinel_test(e.operand)
+            return {"is": "isnot", "isnot": "is"}.get(k_)
         if isinstance(e, ast.Compare) and len(e.ops) == 1 and isinstance(e.ops[0], (ast.Is, ast.IsNot)) and isinstance(e.left, ast.Name) and e.left.id in itemvars:
             r = ctx.p.resolve_expr_static(rd.module, rd, e.comparators[0]) if isinstance(e.comparators[0], (ast.Name, ast.Attribute)) else None
             if r and r[0] == "modvar" and (r[1].name, r[2]) == sent:
                 return "is" if isinstance(e.ops[0], ast.Is) else "isnot"
         return None
+    sentinel_loops = set()
+    for t in cfg.live:
+        if t.kind == "test" and isinstance(t.ast, ast.While) and t.ast in rd.node.body:
+            if isinstance(t.ast.test, ast.Constant) and t.ast.test.value:
+                continue
+            if is_sentinel_test(t.ast.test) == "isnot":
+                sentinel_loops.add(t)   # `while <item> is not <sentinel>`: the loop test is the sentinel test
+                continue
+            problems.append("the reader loop runs `while %s`: it can stop before the queue is drained" % unparse(t.ast.test))
+    # every way out of the function
+    exits = [n for n in cfg.live if n.kind in ("return", "break")] + [p for p, l in cfg.exit.pred if l == "fallthrough" or l == "false"]
+    chk.need(exits, "_reader has no exit at all")
     for x in exits:
+        if x in sentinel_loops:
+            continue  # left exactly when the item just read is the sentinel
         gs = [(t, lab) for t, lab in cfg.guards_of(x) if t.kind == "test" and not (isinstance(t.ast, ast.While) and isinstance(t.exprs[0], ast.Constant))]
         kinds = []
         for t, lab in gs:
@@ -226,7 +235,26 @@ def rule_thread_and_contain(chk, qa, itemvars):
                     best = x
         return best
     batched = any(isinstance(innermost_loop(c), ast.For) for n, c in dn)
-    rng = cfg.count_range(getn[0], [head], lambda x: sum(1 for n, c in dn if n is x), avoid_edges=set()) if getn else None
+    # between taking an item off the queue and the next read (or leaving), a non-sentinel item is delivered exactly once
+    def sentinel_edge(t, lab):
+        e = t.exprs[0]
+        neg = False
+        while isinstance(e, ast.UnaryOp) and isinstance(e.op, ast.Not):
+            e, neg = e.operand, not neg
+        if isinstance(e, ast.Compare) and len(e.ops) == 1 and isinstance(e.ops[0], (ast.Is, ast.IsNot)) and isinstance(e.left, ast.Name) and e.left.id in itemvars:
+            is_ = isinstance(e.ops[0], ast.Is) != neg
+            return (lab == "true") == is_
+        return False
+    s_edges = {(t, lab) for t in cfg.live if t.kind == "test" for lab in ("true", "false") if sentinel_edge(t, lab)}
+    rng = None
+    for g_ in getn:
+        starts_ = [s_ for s_, l in g_.succ if l != "exc"]
+        if not starts_:
+            continue
+        r_ = cfg.count_range(starts_[0], [x for x in getn] + [cfg.exit], lambda x: sum(1 for n, c in dn if n is x), avoid_edges=s_edges | quiet)
+        if r_ is None:
+            continue
+        rng = r_ if rng is None or r_ == rng else (min(rng[0], r_[0]), max(rng[1], r_[1]))
     if batched:
         rng = (1, 1)
         chk.skip("C19.thread", "ThreadedWriter._reader:one-delivery-per-dequeued-item(count)", chk.where(rd), "batched delivery loop: per-item count not modelled")
